@@ -692,6 +692,17 @@ func (c18) Exec(c Case) []string {
 			}(i, op[0] == "liveserver")
 			continue
 		}
+		if op[0] == "stale" && len(op) == 3 {
+			iv, _ := strconv.Atoi(op[1])
+			wg.Add(1)
+			go func(i int, lives string) {
+				defer wg.Done()
+				// a supervised client whose keepalive ticks every few milliseconds, through losses with the server
+				// refusing connections for a while: the real StreamManager, the fault-injecting server of C13
+				obs[i] = c13runKA(time.Duration(iv)*time.Millisecond, false, false, "o", lives)
+			}(i, op[2])
+			continue
+		}
 		if op[0] == "cfginterval" && len(op) == 3 {
 			ms, _ := strconv.Atoi(op[2])
 			obs[i] = c18cfgInterval(op[1], ms)
@@ -796,6 +807,10 @@ func (c18) Generate(rng *rand.Rand, tier string, st *Stats) []Case {
 			ops = append(ops, []string{"cfginterval", sch, strconv.Itoa([]int{0, 40, 1000, 4999, 5000, 30000, 60000}[(b+len(sch))%7])})
 			st.Inc("configured_interval")
 		}
+		// F-18b: the keepalive of a lost session ticks while the StreamManager reconnects (connections refused for a
+		// while): it must be gone by then - no crash on the transport without a connection, no Close of the new connection
+		ops = append(ops, []string{"stale", strconv.Itoa([]int{3, 5, 8}[b%3]), []string{"drop:r,r,o", "graceful:r,o;drop:r,r,r,o", "drop:r,o;drop:r,o;drop:r,o"}[b%3]})
+		st.Inc("keepalive_during_reconnection")
 		// a Resume whose post-resume hook fails leaves no keepalive behind
 		ops = append(ops, []string{"hookfail", strconv.Itoa([]int{4, 7, 12}[b%3])})
 		st.Inc("resume_hook_fails")
